@@ -130,6 +130,8 @@ def gen_via(r):
 def gen_detect_opts(r, spec, for_c01=False):
     o = {}
     o['outpath'] = r.weighted([(3, None), (4, 'out.csv'), (3, 'out.parquet')])
+    if o['outpath'] and r.chance(0.3):
+        o['outpath_relative'] = True
     if r.chance(0.5):
         o['per_constraint'] = True
     if r.chance(0.35):
@@ -215,7 +217,9 @@ def gen_c09(r, tier):
         path = r.pick(['c.tdda', 'shared.tdda', 'c%d.tdda' % j])
         ops.append({'op': 'roundtrip', 'client': 'A', 'cs': name,
                     'path': path, 'cycles': r.randint(1, 4),
-                    'tddafile': r.chance(0.6)})
+                    'tddafile': r.chance(0.6),
+                    'disturb': r.weighted([(7, None), (1.5, 'delete'),
+                                           (1.5, 'other-set')])})
         for _ in range(r.randint(1, 2)):
             ops.append({'op': 'verdicts', 'client': 'A', 'cs': name,
                         'path': path, 'frame': r.randrange(nframes),
@@ -632,14 +636,27 @@ def op_detect(ctx, op):
             pre_sig = fsaudit.snapshot([outpath]).get(outpath)
         else:
             pre_state = 'absent'
+    call_kw = dict(kw)
+    rel = bool(outpath) and bool((op.get('opts') or {}).get(
+        'outpath_relative'))
+    saved_cwd = os.getcwd()
     try:
         arg = materialise(ctx, op, rec)
-        v = detect_df(df, arg, **kw)
+        if rel:
+            # the output named by a bare file name, relative to the
+            # directory the process is in
+            os.chdir(os.path.dirname(outpath))
+            call_kw['outpath'] = os.path.basename(outpath)
+            ctx.stats['probes']['relative_output_path'] += 1
+        v = detect_df(df, arg, **call_kw)
         outcome = 'ok'
     except WatchdogTimeout:
         raise
     except Exception as e:
         v, outcome, exc = None, 'exc', e
+    finally:
+        if rel:
+            os.chdir(saved_cwd)
     det = None
     if v is not None:
         try:
@@ -1107,7 +1124,21 @@ def op_roundtrip(ctx, op):
             with io.open(path, 'w', encoding='utf-8') as f:
                 f.write(T)
             loaded = DatasetConstraints(loadpath=path)
+            dist = op.get('disturb')
+            if dist:
+                # between loading the file and using what was loaded, the
+                # file goes away or is reused for something else
+                if dist == 'delete':
+                    os.remove(path)
+                else:
+                    with io.open(path, 'w', encoding='utf-8') as f:
+                        f.write('{"fields": {"zz": {"type": "int"}}}\n')
+                ctx.stats['faults']['file_%s_between_load_and_use'
+                                    % dist.replace('-', '_')] += 1
             T2 = loaded.to_json(tddafile=tf)
+            if dist:
+                with io.open(path, 'w', encoding='utf-8') as f:
+                    f.write(T2)
             texts.append((T, T2))
             T = T2
         outcome = 'ok'
